@@ -48,6 +48,7 @@ func c03(c *core.Ctx, r *core.Report) {
 			return ""
 		}, cons, exposerRows)
 	}
+	smallModelCheck(c, r, "C03.R2", cons, l.exposer, 2)
 	// (b) Inject table: holder bookkeeping
 	irs, iruns, iund := injectTable(c, listLen(c))
 	r.Count("inject_table_runs", iruns)
@@ -62,6 +63,7 @@ func c03(c *core.Ctx, r *core.Report) {
 			return ""
 		}, icons, injectRows)
 	}
+	smallModelCheck(c, r, "C03.R1", icons, c.Roles().PropertyInject, int64(listLen(c)))
 	// (c) early factory table
 	ers, eruns, eund := earlyFactoryTable(c, l, listLen(c))
 	r.Count("early_factory_table_runs", eruns)
@@ -70,6 +72,13 @@ func c03(c *core.Ctx, r *core.Report) {
 		r.Undecided("C03.R6", econs, c.FnPos(l.exposer), "abstract interpretation left the model: "+eund)
 	} else {
 		ers.report(c, r, l.exposer, func(row string) string { return "C03.R6" }, econs, earlyFactoryRows)
+	}
+	for _, ci := range core.Calls(l.exposer) {
+		if core.IsInvoke(ci.Common(), c.Roles().SCRAddFactory) && len(ci.Common().Args) == 2 {
+			if lit := core.ClosureOf(ci.Common().Args[1]); lit != nil {
+				smallModelCheck(c, r, "C03.R6", econs, lit, int64(listLen(c)))
+			}
+		}
 	}
 	r.Exhaustive = und == "" && iund == "" && eund == ""
 
